@@ -504,7 +504,7 @@ func (e *Engine) constTerm(c constant.Value, t types.Type) T {
 	return T{"0", s}
 }
 
-var nilTokRe = regexp.MustCompile(`(^|[ (])nil([ )]|$)`)
+var nilTokRe = regexp.MustCompile(`(^|[ (])(nil|nil_slice)([ )]|$)`)
 
 // constArray is the array of sort s whose every element is z.  cvc5 only accepts value
 // literals in (as const …); an element mentioning the uninterpreted constant nil gets a named
